@@ -400,6 +400,57 @@ def rule_parser(ctx, mod, sh, mean, model):
             if got != exp:
                 ok, why = False, "gives (letters, semitones above %s) %s, expected %s (the right-hand chord, then the left-hand chord with its bass)" % (Ly, got, exp)
         ctx.check(ok, R, "combination[%s]" % text, fi.where(), "from_shorthand(%r)" % text, why)
+    # (k) one verdict per chord text: what a text means (or that it is rejected) does not depend on whether it
+    #     stands alone, over a bass, or beside a polychord partner
+    import itertools
+    toks = ("m", "i", "n", "-", "a", "j", "M", "7")
+    depth = 3 if ctx.tier == "thorough" else 2
+    bodies = ["".join(t) for d in range(1, depth + 1) for t in itertools.product(toks, repeat=d)]
+    bodies += ["miin", "-in", "mai", "mmin", "-i7", "mmaj7", "maaj7", "mi-", "m-in", "-min", "mimin7", "majmi", "minmaj7"] + (
+        ["".join(t) for t in itertools.product(("m", "i", "n", "-", "a", "j"), repeat=4)] if ctx.tier == "thorough" else [])
+    bodies = sorted(set(bodies))
+
+    def verdict(text):
+        try:
+            paths = _eval_from_shorthand(ctx, fi, model, lambda: [text])
+        except (CannotDecide, nd.Shape) as e:
+            raise AnalysisError("from_shorthand(%r): %s" % (text, e))
+        if len(paths) != 1:
+            raise AnalysisError("from_shorthand(%r): %d outcomes for a concrete text" % (text, len(paths)))
+        p = paths[0]
+        if p.kind == "return" and isinstance(p.value, list):
+            return ("chord", [x if isinstance(x, str) else repr(x) for x in p.value])
+        if p.kind == "raise" and p.value in ("FormatError", "NoteFormatError"):
+            return ("rejected", None)
+        return (p.kind, short(repr(p.value), 60))
+    partner = verdict("F#7")  # shares no letter with the ends of a C chord: the no-repeat rule stays out of it
+    bad = []
+    n_ctx = 0
+    for body in bodies:
+        x = "C" + body
+        alone = verdict(x)
+        if alone[0] not in ("chord", "rejected"):
+            bad.append((x, "alone", alone))
+            continue
+
+        def merged(first, then):
+            r = list(first)
+            for n_ in then:
+                if r == [] or n_ != r[-1]:
+                    r.append(n_)
+            return r
+        expect = {
+            x + "/E": ("chord", ["E"] + alone[1]) if alone[0] == "chord" else alone,
+            x + "|F#7": ("chord", merged(partner[1], alone[1])) if alone[0] == "chord" else alone,
+            "F#7|" + x: ("chord", merged(alone[1], partner[1])) if alone[0] == "chord" else alone,
+        }
+        for text, want in expect.items():
+            n_ctx += 1
+            got = verdict(text)
+            if got != want:
+                bad.append((text, "gives %s" % (got,), "while %r alone gives %s" % (x, alone)))
+    ctx.check(not bad, R, "one-verdict-per-text", fi.where(), "from_shorthand(X), from_shorthand(X/E), from_shorthand(X|F#7), from_shorthand(F#7|X) for %d alias-like texts X" % len(bodies),
+              "%d of %d readings in context disagree with the text read alone, e.g. %s" % (len(bad), n_ctx, bad[:3]))
     # slash exemption list == keys containing '/'
     with_slash = sorted(k for k in known if "/" in k)
     for k in with_slash:
